@@ -122,8 +122,12 @@ def fam_argv(seed, big):
     return out
 
 
-ERRNOS = {"pipe": [24, 23], "fcntl": [9, 24], "fork": [11, 12], "chdir": [13, 2, 20], "dup2": [9, 24, 4],
-          "sigmask": [22], "setuid": [1, 11], "setgid": [1], "setpgid": [1, 13, 3], "execve": [13, 2, 8, 7, 12, 26]}
+# "any errno": besides the usual ones, values that do not fit one byte / have a zero low byte (kernel-internal
+# codes such as ENOTSUPP=524, ERESTARTSYS=512 do leak out of some file systems and drivers)
+WIDE = [255, 256, 512, 524, 4095, 65538]
+ERRNOS = {"pipe": [24, 23], "fcntl": [9, 24], "fork": [11, 12], "chdir": [13, 2, 20] + WIDE, "dup2": [9, 24, 4, 256],
+          "sigmask": [22], "setuid": [1, 11, 512], "setgid": [1, 524], "setpgid": [1, 13, 3, 256],
+          "execve": [13, 2, 8, 7, 12, 26] + WIDE}
 
 
 def fam_faults(seed, big):
@@ -144,7 +148,9 @@ def fam_faults(seed, big):
         ndup = sum(1 for x in (a, b, c) if x != "none")
         points += [("dup2", k, 1) for k in range(1, ndup + 1)]
         for (kind, nth, side) in points:
-            ers = ERRNOS[kind] if big else ERRNOS[kind][:1] + ([rng.choice(ERRNOS[kind])] if len(ERRNOS[kind]) > 1 else [])
+            ers = ERRNOS[kind] if big else ERRNOS[kind][:1] + ([rng.choice(ERRNOS[kind])] if len(ERRNOS[kind]) > 1 else []) \
+                + ([rng.choice(WIDE)] if side == 1 and kind in ("chdir", "execve") else []) \
+                + ([e for e in ERRNOS[kind] if e >= 255][:1])
             for er in sorted(set(ers)):
                 for det in (False, True):
                     if not big and det and rng.random() < 0.4 and kind not in ("execve", "fork"):
